@@ -24,6 +24,12 @@ package p2p
 //@   ensures [announcedIdIsTheAuthenticatedKey] err == nil ==> nodeIDOf(nodeInfo) == connID
 //@   ensures [dialedPeerIsTheOneReached] err == nil && dialedAddr != nil ==> connID == dialedID
 
-// Stopping a peer for an error removes it from the switch (goroutines, peer set): trusted, any effect.
+// Stopping a peer removes it from the switch (its peer set, its goroutines): nothing of a reactor's own
+// state (trusted frame).
 //@ trusted func (sw *Switch) StopPeerForError(peer Peer, reason interface{})
-//@   modifies *
+//@   modifies nothing
+//@ trusted func (sw *Switch) StopPeerGracefully(peer Peer)
+//@   modifies nothing
+// Converting a list of wire addresses: a list or an error; it writes only what it allocates.
+//@ trusted func NetAddressesFromProto(pbs []kp2p.NetAddress) (r []*NetAddress, err error)
+//@   modifies nothing
